@@ -298,13 +298,13 @@ def initObj (ppqn : Option Int) (numTracks : Int) (pitchRange : Int × Int) (ste
 theorem tokInit_eq (ppqn : Option Int) (numTracks : Int) (pitchRange : Int × Int) (stepSizes noteValues : Option (List Int))
     (vb : Int) (tsRange : Int × Int) (running fuseTrk fuseVal fuseVel simplify : Bool) :
     tokInit ppqn numTracks pitchRange stepSizes noteValues vb tsRange running fuseTrk fuseVal fuseVel simplify =
-      match linkVelocityBins vb with
+      match linkVelocityBinsFn vb with
       | .error e => .error e
       | .ok bins =>
         let o := initObj ppqn numTracks pitchRange stepSizes noteValues bins tsRange running fuseTrk fuseVal fuseVel simplify
         .ok (finish (pushAll o ((vocabSeq (cfgOf o)).map render))) := by
   unfold tokInit
-  cases hb : linkVelocityBins vb with
+  cases hb : linkVelocityBinsFn vb with
   | error e => rfl
   | ok bins =>
     simp only [bind, Except.bind, pure, Except.pure]
